@@ -224,6 +224,10 @@ func runC20(t *testing.T, seed uint64, m *Mask) *Report {
 			sample = fmt.Sprintf("first user %d ops, second user %d ops", len(h1), len(h2))
 			a := socket.GetMessage()
 			applyMsg(a, h1)
+			// the first user looks at what it built (as a protocol's Pack and the run log do) before it lets go
+			_ = viewMsg(a)
+			_ = a.XferPipe().IDs()
+			_ = a.String()
 			socket.PutMessage(a)
 			b := socket.GetMessage()
 			if a != b {
